@@ -402,7 +402,13 @@ def run_property(pid, tier, replay=None):
             print(case.get('exception')); print(case['traceback'])
             print('re-running the %s check (seed %s) to reproduce' % (pid, os.environ.get('VERIF_SEED', '0')))
             return run_property(pid, tier)
-        return mod.replay(data)
+        try:
+            return mod.replay(data)
+        except (KeyError, TypeError, IndexError, AttributeError) as e:
+            # a failure kind whose case record the module's replay does not take apart (systematic grids added later):
+            # the replay is the run that produced it, at the seed recorded in the environment
+            print('replay of this record needs the whole check (%s: %s); re-running %s' % (type(e).__name__, e, pid))
+            return run_property(pid, tier)
 
     # 1. tie part (a): regenerate tables, rebuild and re-check every proof
     bld = build()
